@@ -92,6 +92,68 @@ func c10(c *Ctx) {
 			c.MustFact(final, "only-at-end-of-stream", Truth(CallRes(CalleeX(h2, "HeadersFrame.StreamEnded"), 0), true))
 			c.ArgIs(final, 6, "trailers-are-this-frames-metadata", func(v ssa.Value) bool { _, ok := strip(v).(*ssa.MakeMap); return ok })
 		}
+		// gRPC mode: the handler's status (and the headers) are used exactly when the response is a gRPC response — the
+		// HTTP-status fallback is taken only for a non-gRPC response, a header decoding error only ends the stream when there is one
+		var flag ssa.Value
+		nonGRPC := callsIn(f, Callee(tr, "ClientStream.startNonGRPCDataCollection"))
+		if c.Expect(len(nonGRPC) == 1, nil, f, "non-grpc-arm", "the non-gRPC response arm was not found") {
+			for _, fc := range FactsAt(nonGRPC[0]) {
+				if fc.Kind == "truth" && !fc.Pol {
+					if p, ok := fc.X.(*ssa.Phi); ok && AnyBoolPhi(p) {
+						flag = p
+					}
+				}
+			}
+		}
+		if c.Expect(flag != nil, nil, f, "grpc-mode-flag", "the non-gRPC arm is not guarded by the 'is a gRPC response' flag") {
+			isFlag := func(v ssa.Value) bool { return v == flag }
+			for _, ci := range callsIn(f, CalleeX("strconv", "Atoi")) {
+				c.MustFact(ci, "http-status-fallback-only-for-non-grpc", Truth(isFlag, false))
+			}
+			c.MustFact(nw, "handler-status-only-for-a-grpc-response", Truth(isFlag, true))
+			if final != nil {
+				c.MustFact(final, "final-status-only-for-a-grpc-response", Truth(isFlag, true))
+			}
+			for _, st := range storesToField(f, c.field(tr, "ClientStream", "header")) {
+				c.MustFact(st, "headers-delivered-only-for-a-grpc-response", Truth(isFlag, true))
+			}
+			// the flag becomes true only through the content-type arm (valid gRPC content type) or because headers were already received
+			for i, e := range flag.(*ssa.Phi).Edges {
+				if ConstBool(true)(e) {
+					pr := flag.(*ssa.Phi).Block().Preds[i]
+					fs := append(append([]Fact(nil), FactsAtBlock(pr)...), edgeOnlyFacts(pr, flag.(*ssa.Phi).Block())...)
+					_, okCT := hasFact(fs, Truth(ExtractOf(CallRes(Callee("internal/grpcutil", "ContentSubtype"), -1), 1), true))
+					c.Expect(okCT, nw, f, "grpc-mode-only-for-a-valid-grpc-content-type", "the response is treated as gRPC without a valid gRPC content-type")
+				}
+			}
+		}
+		// a header decoding error ends the stream with INTERNAL exactly when one was recorded; the handler's status and the
+		// headers are used only without one
+		var herr ssa.Value
+		for _, cs := range callsIn(f, Callee(tr, "http2Client.closeStream")) {
+			st, ok := cs.Common().Args[5].(*ssa.Call)
+			if !ok || !isStatusCtor(&st.Call) || len(st.Call.Args) < 2 {
+				continue
+			}
+			ph, ok := st.Call.Args[1].(*ssa.Phi)
+			if !ok {
+				continue
+			}
+			isErrText := false
+			for _, lf := range phiLeaves(ph) {
+				if call, ok := lf.Val.(*ssa.Call); ok && CalleeX("fmt", "Sprintf")(&call.Call) && hasAllFacts(lf.Facts, []FM{NotNil(CallRes(Callee(tr, "decodeMetadataHeader"), 1))}) {
+					isErrText = true
+				}
+			}
+			if !isErrText {
+				continue
+			}
+			herr = ph
+			c.MustFact(cs, "header-error-status-only-when-an-error-was-recorded", Cmp(func(v ssa.Value) bool { return v == ssa.Value(ph) }, token.NEQ, ConstStr("")))
+		}
+		if c.Expect(herr != nil, nil, f, "header-error-arm", "no arm ends the stream for an undecodable header") && final != nil {
+			c.MustFact(final, "handler-status-only-without-a-header-error", Cmp(func(v ssa.Value) bool { return v == herr }, token.EQL, ConstStr("")))
+		}
 		// a malformed grpc-status ends the stream with an error status instead
 		pe := NotNil(CallRes(CalleeX("strconv", "ParseInt"), 1))
 		if final != nil {
